@@ -66,6 +66,16 @@ def determinism(props, runs, seed):
         if len(set(rcs.values())) > 1:
             ok = False
             print("SELFTEST determinism %s FAILED: verdict depends on PYTHONHASHSEED: %s" % (prop, rcs))
+        # a run and the replay of its recorded trace (from the JSON text) are the same execution
+        n = max(3, min(runs, 40) if prop != "C18" else 3)
+        r = subprocess.run([sys.executable, os.path.join(kernel.VERIF_DIR, "check"), prop, "--roundtrip", str(n), "--seed", str(seed)],
+                           capture_output=True, text=True, timeout=3600)
+        last = (r.stdout.strip().splitlines() or ["(no output)"])[-1]
+        if r.returncode != 0:
+            ok = False
+            print("SELFTEST determinism %s FAILED: %s\n%s" % (prop, last, r.stdout[-600:] + r.stderr[-400:]))
+        else:
+            print("SELFTEST determinism %s ok: %s" % (prop, last))
     return ok
 
 
